@@ -25,7 +25,7 @@ def dispatch (c : Case) : Verdict :=
   else if fam.startsWith "sl." then Driver.Slice.handle c
   else if fam.startsWith "sp." then Driver.Split.handle c
   else if fam == "find" || fam == "findlast" || fam == "contains" || fam == "starts" || fam == "ends" || fam == "blk.search" then Driver.Search.handle c
-  else if fam == "scmp" || fam == "scmpnull" || fam == "bcmp" || fam == "bcmpnull" || fam == "rawcmp" || fam == "bigcmp" || fam == "casemap" || fam == "tri" || fam == "blk.scmp" || fam == "blk.bcmp" || fam == "blk.tri" then Driver.Compare.handle c
+  else if fam == "scmp" || fam == "mvcmp" || fam == "scmpnull" || fam == "bcmp" || fam == "bcmpnull" || fam == "rawcmp" || fam == "bigcmp" || fam == "casemap" || fam == "tri" || fam == "blk.scmp" || fam == "blk.bcmp" || fam == "blk.tri" then Driver.Compare.handle c
   else if fam.startsWith "num." || fam.startsWith "blk.num." then Driver.Num.handle c
   else if fam.startsWith "flt." then Driver.Flt.handle c
   else if fam == "fmt" then Driver.Fmt.handle c
